@@ -64,6 +64,7 @@ struct RunCfg
   // OSSPS
   double alpha = 1., gamma = 0.1, upper_bound = 1e6;
   bool quadratic_prior = false;
+  bool kappa = false; // spatially varying penalty weights (kappa image) for the quadratic prior
   double beta = 0.;
   bool map_multiplicative = false; // OSMAPOSL MAP model
   bool reuse_denominator = false;
@@ -90,6 +91,23 @@ make_recon(const Problem& pr, const shared_ptr<rc::objective_type>& obj, const R
   r->set_MAP_model(rcg.map_multiplicative ? "multiplicative" : "additive");
 #endif
   return r;
+}
+
+// the kappa image: a pure function of the problem
+inline shared_ptr<target_type>
+kappa_image(const Problem& pr)
+{
+  shared_ptr<target_type> k(pr.start_image->get_empty_copy());
+  sim::Rng r(sim::mix((uint64_t)pr.nvox * 7919u + (uint64_t)pr.P.size(), 17));
+  for (auto it = k->begin_all(); it != k->end_all(); ++it)
+    *it = (float)(0.5 + r.unit());
+  return k;
+}
+inline void
+configure_prior(QuadraticPrior<float>& prior, const Problem& pr, const RunCfg& rcg)
+{
+  if (rcg.kappa)
+    prior.set_kappa_sptr(kappa_image(pr));
 }
 
 // ------------------------------------------------------------------ explicit-P reference
@@ -173,7 +191,9 @@ run_process(const Problem& pr, RunCfg rcg, const std::string& dir, shared_ptr<ta
       shared_ptr<rc::objective_type> obj = reuse_objective ? reuse_objective : rc::make_objective(pr, dir, rcg.reuse_sens, rcg.subset_sens);
       if (rcg.quadratic_prior)
         {
-          shared_ptr<GeneralisedPrior<target_type>> prior(new QuadraticPrior<float>(false, (float)rcg.beta));
+          shared_ptr<QuadraticPrior<float>> qp(new QuadraticPrior<float>(false, (float)rcg.beta));
+          configure_prior(*qp, pr, rcg);
+          shared_ptr<GeneralisedPrior<target_type>> prior(qp);
           obj->set_prior_sptr(prior);
         }
       shared_ptr<ObservedRecon> recon;
@@ -235,6 +255,7 @@ gen_runcfg(Plan& p, sim::Rng& r)
   p.cfg["prior"] = r.chance(0.4);
   p.cfg["beta10"] = r.range(1, 30);
   p.cfg["map_mult"] = r.chance(0.5);
+  p.cfg["kappa"] = r.chance(0.4);
 #ifdef RECON_OSSPS
   p.cfg["alpha10"] = r.range(5, 15);
   p.cfg["gamma10"] = r.chance(0.3) ? 0 : r.range(1, 10);
@@ -252,6 +273,7 @@ base_runcfg(const Plan& p, const Problem& pr)
   c.subset_sens = p.c("subset_sens", 1) != 0;
   c.start_subset = (int)(p.c("start_subset", 0) % pr.num_subsets);
   c.quadratic_prior = p.c("prior", 0) != 0;
+  c.kappa = c.quadratic_prior && p.c("kappa", 0) != 0;
   c.beta = p.c("beta10", 5) / 10.;
   c.map_multiplicative = p.c("map_mult", 0) != 0;
 #ifdef RECON_OSSPS
